@@ -377,6 +377,13 @@ package dnsmsg
 //@   modifies nothing
 //@   ensures err == nil ==> dynNonNil(r) && fresh(r) && off < noff && noff <= len(msg)
 //@   ensures err != nil ==> r == nil
+// every record type whose RDATA holds domain names (which may arrive compressed, i.e. as offsets into THIS message)
+// is decoded by the record type that expands them; only the other types are kept as raw bytes
+//@   ensures [C02:rdata-with-names-is-decoded-not-copied] err == nil ==>
+//@             typeIs(r, *NAMEResource) == (ptrOf(r, ResourceHdr).Type == TypeCNAME || ptrOf(r, ResourceHdr).Type == TypeNS || ptrOf(r, ResourceHdr).Type == TypePTR)
+//@             && typeIs(r, *SOA) == (ptrOf(r, ResourceHdr).Type == TypeSOA) && typeIs(r, *MX) == (ptrOf(r, ResourceHdr).Type == TypeMX)
+//@             && typeIs(r, *SRV) == (ptrOf(r, ResourceHdr).Type == TypeSRV)
+//@   ensures [C02:addresses-decoded-as-addresses] err == nil ==> typeIs(r, *A) == (ptrOf(r, ResourceHdr).Type == TypeA) && typeIs(r, *AAAA) == (ptrOf(r, ResourceHdr).Type == TypeAAAA)
 // error paths: the owner name is released once (by whoever holds the header at that point)
 //@   callsite ReleaseBuf?: [C20:no-double-release] !attr(released, arg0)
 //@   callsite ReleaseA?: [C20:no-double-release] arg0.Name == nil || !attr(released, arg0.Name)
